@@ -2575,6 +2575,7 @@ func (db *DB) checkpointWithExecutor(ctx context.Context, mode string, exec *syn
 
 	var barrierTx *sql.Tx
 	if mode == CheckpointModePassive {
+		verifPhase(db, "checkpoint_passive_barrier")
 		barrierTx, err = db.db.BeginTx(ctx, nil)
 		if err != nil {
 			return false, fmt.Errorf("begin passive checkpoint barrier: %w", err)
